@@ -544,7 +544,25 @@ def trace_validate(module, cfg, workdir, trace_path, cases_path, env=None, timeo
     res = tlc(module, cfg, workdir, workers=1, env=e, timeout=timeout, jvm=["-Xss1g", "-Xmx6g"])
     summ = res["tagged"].get("SUMMARY")
     if not summ or res["violated"]:
-        tail = "\n".join(res["out"].splitlines()[-60:])
+        out = res["out"]
+        # The trace specification could not be EVALUATED on some event: the implementation produced an observation of a shape the
+        # specification has no meaning for (a function applied outside its domain, a missing field ...).  On the unchanged tree
+        # this never happens; when it does, the event is one the specification cannot explain - a rejection of that event, not a
+        # failure of the tool.  (Parse errors, time-outs and memory exhaustion remain tool errors.)
+        if "The error occurred when TLC was evaluating" in out and not re.search(r"StackOverflow|OutOfMemory|Java heap|Parsing or semantic", out):
+            ls = re.findall(r"^l = (\d+)\s*$", out, re.M)
+            if ls:
+                n = int(ls[-1])
+                events = read_ndjson(trace_path)
+                if 1 <= n <= len(events):
+                    ev = events[n - 1]
+                    msgs = [x.strip() for x in re.findall(r"^Error: (.*)$", out, re.M)][:3]
+                    rejects = [json.loads(x) for x in res["tagged"].get("REJECT", [])]
+                    rejects.append({"l": n, "case": ev.get("case"), "tags": ["spec-cannot-explain-event"], "tlc": msgs})
+                    print("[check] %s: the specification could not be evaluated on event %d; reported as a rejection of that event "
+                          "(the rest of this trace was not examined)" % (module, n))
+                    return {"events": len(events), "consumed": len(events), "aborted_at": n}, rejects, res
+        tail = "\n".join(out.splitlines()[-60:])
         raise ToolError("trace validation %s did not complete:\n%s" % (module, tail))
     summary = json.loads(summ[-1])
     rejects = [json.loads(x) for x in res["tagged"].get("REJECT", [])]
